@@ -89,9 +89,15 @@ class AmbigGen:
         text = "%sint g(int a) { return a; } int g2(int a, int b) { return b; }\nint f(%s)\n{\n %s\n return 0;\n}\n" % (filed, param or "void", body)
         a = text.index(e)
         b = a + len(e)
+        exact = None
         if op and not is_type:
-            a -= {"binaryrhs": len("1 + "), "unary": len("!")}.get(name, 0)      # the binary node covers what is on the left as well
-        return {"text": text, "span": (a, b), "want": want, "form": form, "ctx": name, "how": how, "expr": e}
+            # the binary node covers what is on the left as well - unless the operator binds tighter than the `+` on its left
+            ext = {"binaryrhs": 0 if op == "*" else len("1 + "), "unary": len("!")}.get(name, 0)
+            exact = (a - ext, b)
+            a -= {"binaryrhs": len("1 + "), "unary": len("!")}.get(name, 0)
+        elif op:
+            exact = (a, b)
+        return {"text": text, "span": (a, b), "exact": exact, "want": want, "form": form, "ctx": name, "how": how, "expr": e}
 
     def suffix_case(self, form, ctx, how):
         """the same ambiguities with a SUFFIX after the name: (T[0]) - x / (T(1)) - x (a cast to an array or function type is not valid C:
@@ -266,6 +272,9 @@ class AmbigGen:
         left_ext = c["text"].index(c["expr"], c["text"].index("int f(")) - c["span"][0]
         d = dict(c)
         d.update(text=text, span=(a - left_ext, a + len(c["expr"])), how=c["how"] + "+" + kind)
+        if c.get("exact"):
+            shift = (a - left_ext) - c["span"][0]
+            d["exact"] = (c["exact"][0] + shift, c["exact"][1] + shift)
         return d
 
     def all_cases(self, every=1):
